@@ -489,6 +489,7 @@ def construct_lists(ctx, rule='TYPE-LISTS'):
         _isa = ('Atoms',)
         natypes = 2
         natoms = 3
+        view = {}
 
     class Bx(PyStub):
         _isa = ('Box',)
